@@ -209,7 +209,10 @@ def _make_bound_keys(case, nkeys, rng):
     tries = 0
     while len(cuts) < ncpu - 1:
         tries += 1
-        cand = int(rng.randint(1, nkeys)) if tries < 200 else next(c for c in range(1, nkeys) if c not in cuts)
+        if nkeys > 2 ** 62:
+            cand = max(1, min(int(rng.random_sample() * nkeys), nkeys - 1))        # (beyond what randint takes)
+        else:
+            cand = int(rng.randint(1, nkeys)) if tries < 200 else next(c for c in range(1, nkeys) if c not in cuts)
         if cand not in cuts:
             cuts.append(cand)
             cuts.sort()
@@ -271,7 +274,12 @@ def _dbls(f, vals):
     _rec(f, np.asarray(vals, dtype="<f8").tobytes())
 
 
-def fmt_key(k):
+def fmt_key(k, style=None):
+    if style == "e23.15":
+        # what RAMSES itself prints (Fortran E23.15): fifteen significant digits, 0.ddddE+xx
+        mant, ex = f"{float(k):.14E}".split("E")
+        digits = mant.replace(".", "").replace("-", "")
+        return "0.000000000000000E+00" if float(k) == 0 else f"0.{digits}E{int(ex) + 1:+03d}"
     return f"{float(k):.17E}" if k < 2 ** 53 else repr(float(k))
 
 
@@ -308,7 +316,8 @@ def write_output(m, path, nout=None, max_level_written=None):
         f.write(f"ordering type={case['ordering']}\n")
         f.write("   DOMAIN   ind_min                 ind_max\n")
         for k in range(ncpu):
-            f.write(f"{k + 1:8d}  {fmt_key(m.bound_key[k])}  {fmt_key(m.bound_key[k + 1])}\n")
+            f.write(f"{k + 1:8d}  {fmt_key(m.bound_key[k], case.get('key_format'))}  "
+                    f"{fmt_key(m.bound_key[k + 1], case.get('key_format'))}\n")
     # ---- descriptors
     def write_desc(fname, names, types=None):
         with open(os.path.join(d, fname), "w") as f:
